@@ -1,7 +1,10 @@
 ------------------------------- MODULE HabGen -------------------------------
 (* C07 - GEN form: TLC enumerates the abstract cases that are built through SPSDK.                 *)
 (* Primary dimensions (full product): layout class x application size (pages, residue of            *)
-(* (initial load size + length) mod 4 KiB around the boundary) x flags x DCD/XMCD x repetition.     *)
+(* (initial load size + length) mod 4 KiB around the boundary) x flags x none/DCD x repetition, and   *)
+(* for the XMCD:  layout class x flags x XMCD KIND (every kind of HabLayout!XmcdKinds + "raw") x     *)
+(* source of the block (golden block of NXP / built by SPSDK's XMCD class from its template / header  *)
+(* of the kind + arbitrary configuration bytes) - there the application size is a secondary dimension. *)
 (* Secondary dimensions (key tree, number of SRKs, source index, key-path variant, MAC / DEK length, *)
 (* nonce / DEK given or generated, extra commands, CSF version, IMGK slot, entry point given,        *)
 (* family + boot device instead of explicit offsets, start address) are spread over the primary     *)
@@ -19,12 +22,21 @@ Lays == << [n |-> "sd0", ivtOff |-> 0, ils |-> 1024], [n |-> "nor", ivtOff |-> 4
 Residues == IF Full THEN {4079, 4080, 4081, 4094, 4095, 0, 1, 2, 15, 16, 17, 31, 32, 33, 100, 2048, 3000}
                     ELSE {4080, 4081, 4095, 0, 1, 16, 2048}
 Pages == IF Full THEN 0..3 ELSE 0..1
-CfgLens == [dcd |-> <<12, 44, 124, 332>>, xmcd |-> <<8, 13, 16, 260>>]
+CfgLens == [dcd |-> <<12, 44, 124, 332>>, xmcd |-> <<8, 13, 16, 260, 512, XmcdMax>>]     \* xmcd: lengths of "raw" blocks
+Flags == {"plain", "auth", "enc"}
+ResSeq == SetToSeq(Residues)
+MaxPage == IF Full THEN 3 ELSE 1
 
-Prim == { p \in [lay : 1..4, res : Residues, pages : Pages, flags : {"plain", "auth", "enc"}, cfg : {"none", "dcd", "xmcd"},
-                 rep : 0..(Reps - 1)] :
-            /\ p.pages * 4096 + p.res >= 64
-            /\ (p.cfg = "xmcd" => Lays[p.lay].ils - Lays[p.lay].ivtOff >= 3072) }
+\* without XMCD: the full product
+PrimB == { p \in [lay : 1..4, res : Residues, pages : Pages, flags : Flags, cfg : {"none", "dcd"}, xk : {"none"}, xv : {"none"},
+                  sub : {0}, rep : 0..(Reps - 1)] : p.pages * 4096 + p.res >= 64 }
+\* with XMCD (layouts whose application offset leaves room: the RT116x / RT117x boot devices): every kind x every flag x every source
+XLays == {i \in 1..4 : Lays[i].ils - Lays[i].ivtOff >= 3072}
+PrimX == [lay : XLays, res : {-1}, pages : {-1}, flags : Flags, cfg : {"xmcd"}, xk : XmcdKindNames, xv : {"golden", "tmpl", "rand"},
+          sub : (IF Full THEN 0..2 ELSE {0}), rep : 0..(Reps - 1)]
+PrimR == [lay : XLays, res : {-1}, pages : {-1}, flags : Flags, cfg : {"xmcd"}, xk : {"raw"}, xv : {"rand"},
+          sub : (IF Full THEN 0..5 ELSE 0..1), rep : 0..(Reps - 1)]
+Prim == PrimB \cup PrimX \cup PrimR
 PrimSeq == SetToSeq(Prim)
 
 Trees == << "rsa2048", "p256", "rsa4096", "p384", "fa_rsa2048", "rsa3072", "p521", "fa_p256" >>
@@ -33,21 +45,31 @@ Vers == << "4.2", "4.3", "4.1", "4.0", "4.5" >>
 Pick(seq, x) == seq[(x % Len(seq)) + 1]
 IsFast(tree) == tree \in {"fa_rsa2048", "fa_p256"}
 
+\* raw XMCD blocks: every length under every flag (sub x layout position spans the lengths)
+LayPos(l) == Cardinality({j \in XLays : j < l})
+FlagIdx(f) == CASE f = "plain" -> 0 [] f = "auth" -> 1 [] OTHER -> 2
+RawIdx(p) == p.sub * Cardinality(XLays) + LayPos(p.lay) + FlagIdx(p.flags) + Seed + p.rep
 Case(k) ==
   LET p == PrimSeq[k]
       x == k + Seed + 7919 * p.rep
       lay == Lays[p.lay]
       tree == Pick(Trees, x)
       nSrk == ((x \div 8) % 4) + 1
-      cfgLen == IF p.cfg = "none" THEN 0 ELSE Pick(CfgLens[p.cfg], x \div 3)
-  IN [id |-> k, lay |-> lay.n, ivtOff |-> lay.ivtOff, ils |-> lay.ils, appLen |-> p.pages * 4096 + p.res,
-      flags |-> p.flags, cfg |-> p.cfg, cfgLen |-> cfgLen, rep |-> p.rep,
+      cfgLen == CASE p.cfg = "none" -> 0
+                  [] p.cfg = "dcd" -> Pick(CfgLens.dcd, x \div 3)
+                  [] p.xk \in XmcdKindNames -> XmcdKinds[p.xk].size
+                  [] OTHER -> Pick(CfgLens.xmcd, RawIdx(p))
+      \* application size of the XMCD cases: residue and pages by index
+      res == IF p.cfg = "xmcd" THEN Pick(ResSeq, x \div 3) ELSE p.res
+      pages == IF p.cfg # "xmcd" THEN p.pages ELSE IF res < 64 THEN 1 + ((x \div 9) % MaxPage) ELSE (x \div 9) % (MaxPage + 1)
+  IN [id |-> k, lay |-> lay.n, ivtOff |-> lay.ivtOff, ils |-> lay.ils, appLen |-> pages * 4096 + res,
+      flags |-> p.flags, cfg |-> p.cfg, cfgLen |-> cfgLen, rep |-> p.rep, xmcdKind |-> p.xk, xmcdVar |-> p.xv, sub |-> p.sub,
       tree |-> tree, fast |-> IsFast(tree), nSrk |-> nSrk, src |-> (x \div 5) % nSrk, keyvar |-> Pick(KeyVars, x \div 7),
       macLen |-> 4 + 2 * ((x \div 2) % 7), dekLen |-> Pick(<<16, 24, 32>>, x \div 11),
       nonceGiven |-> (x \div 13) % 2 = 0, reuseDek |-> (x \div 17) % 2 = 0, extra |-> (x \div 19) % 4,
       ver |-> Pick(Vers, x \div 23), tgt |-> IF IsFast(tree) THEN 0 ELSE 2 + ((x \div 29) % 4),
       entryGiven |-> (x \div 31) % 3, byDb |-> (x \div 37) % 2 = 0 /\ lay.n # "ram", startSel |-> (x \div 41) % 6,
-      xmcdSel |-> (x \div 43) % 6, tsGiven |-> (x \div 47) % 2 = 0]
+      xmcdSel |-> (x \div 43) % 6, xmcdInst |-> (x \div 43) % 2, tsGiven |-> (x \div 47) % 2 = 0]
 
 Params(c) == [ivtOff |-> c.ivtOff, ils |-> c.ils, appLen |-> c.appLen, flags |-> c.flags, cfgKind |-> c.cfg, cfgLen |-> c.cfgLen,
               dekLen |-> c.dekLen]
